@@ -3,9 +3,11 @@ package main
 import (
 	"bytes"
 	"go/ast"
+	"go/constant"
 	"go/parser"
 	"go/printer"
 	"go/token"
+	"go/types"
 	"path/filepath"
 	"sort"
 	"strings"
@@ -171,6 +173,7 @@ func runC18(p *P, r *R) {
 
 	c18WriteLoop(p, r)
 	c18Window(p, r, "R18.4")
+	epollDemux(p, r, "R18.7")
 	// the window handed to the callback is only valid until commitRead: nothing may retain it
 	noEscapeOfEventBuffer(p, r, "R18.6")
 	c18Variants(p, r)
@@ -575,4 +578,148 @@ func declTexts(path string) (map[string]string, error) {
 		}
 	}
 	return out, nil
+}
+
+// epollDemux (R18.7 / R11.9): a writer that met EAGAIN parks on connEventHandler.onWriteReadyCh and is released only
+// by the event loop when epoll reports EPOLLOUT. The connection is registered edge-triggered, so an EPOLLOUT bit that
+// is not acted upon is never reported again: in the function that tests the readiness bits of an epoll event, the
+// EPOLLOUT-set edge must always reach the write-ready signal, and the EPOLLOUT test must be reached whether or not
+// EPOLLIN was set in the same event.
+func epollDemux(p *P, r *R, rule string) {
+	bits := map[string]int64{}
+	for _, path := range []string{"syscall", "golang.org/x/sys/unix"} {
+		lp := p.LPkg.Imports[path]
+		if lp == nil || lp.Types == nil {
+			continue
+		}
+		for _, nm := range []string{"EPOLLIN", "EPOLLOUT"} {
+			if c, ok := lp.Types.Scope().Lookup(nm).(*types.Const); ok {
+				if v, okv := constant.Int64Val(constant.ToInt(c.Val())); okv {
+					bits[nm] = v
+				}
+			}
+		}
+	}
+	if bits["EPOLLIN"] == 0 || bits["EPOLLOUT"] == 0 {
+		r.fail(rule, "constants syscall.EPOLLIN / EPOLLOUT", "", "not resolved")
+		return
+	}
+	signals := M{ID: "signal onWriteReadyCh", F: func(in ssa.Instruction) bool {
+		switch x := in.(type) {
+		case *ssa.Call:
+			return p.calleeName(&x.Call) == "asyncNotify" && isLoadOf(x.Call.Args[0], "connEventHandler.onWriteReadyCh")
+		case *ssa.Send:
+			return isLoadOf(x.Chan, "connEventHandler.onWriteReadyCh")
+		}
+		return false
+	}}
+	// bitTest: `param & K != 0` -> (K, successor index taken when the bit is set)
+	bitTest := func(f *ssa.Function, ifi *ssa.If) (int64, int, bool) {
+		cond, neg := stripNot(ifi.Cond)
+		b, ok := cond.(*ssa.BinOp)
+		if !ok || (b.Op != token.NEQ && b.Op != token.EQL) {
+			return 0, 0, false
+		}
+		x, y := b.X, b.Y
+		if z, okz := constInt(x); okz && z == 0 {
+			x, y = y, x
+		}
+		if z, okz := constInt(y); !okz || z != 0 {
+			return 0, 0, false
+		}
+		and, ok := stripConv(x).(*ssa.BinOp)
+		if !ok || and.Op != token.AND {
+			return 0, 0, false
+		}
+		v, k := and.X, and.Y
+		if _, isC := constInt(v); isC {
+			v, k = k, v
+		}
+		kk, okk := constInt(k)
+		if _, isParam := stripConv(v).(*ssa.Parameter); !okk || !isParam {
+			return 0, 0, false
+		}
+		set := 0 // successor taken when (v&k != 0)
+		if (b.Op == token.EQL) != neg {
+			set = 1
+		}
+		return kk, set, true
+	}
+	n := 0
+	for _, f := range p.fnList {
+		tests := map[int64]*ssa.If{}
+		setEdge := map[int64]int{}
+		for _, b := range f.Blocks {
+			if ifi := blockIf(b); ifi != nil {
+				if k, s, ok := bitTest(f, ifi); ok {
+					tests[k], setEdge[k] = ifi, s
+				}
+			}
+		}
+		out, in := tests[bits["EPOLLOUT"]], tests[bits["EPOLLIN"]]
+		if out == nil && in == nil {
+			continue
+		}
+		fn := p.fname(f)
+		if namedName(recvType(f)) != "connEventHandler" {
+			continue
+		}
+		r.Scope[fn] = true
+		n++
+		if out == nil {
+			r.fail(rule, fn+": tests the EPOLLOUT bit of the event", p.pos(f.Pos()), "no test of events&EPOLLOUT found")
+			continue
+		}
+		res := p.mustPass(f, []Point{{out.Block().Succs[setEdge[bits["EPOLLOUT"]]], -1}}, func(i2 ssa.Instruction) bool { return p.evMust(i2, signals, 2) || conditionalSignal(p, i2, signals) }, nil, nil)
+		r.ob(rule, fn+": an event with EPOLLOUT set always reaches the write-ready signal", p.ipos(out), res.OK, true, "%s", p.pathString(res))
+		if in != nil {
+			inB := in.Block()
+			okBoth := true
+			for i := range inB.Succs {
+				other := 1 - i
+				reach := p.reachesWithout(Point{f.Blocks[0], -1}, out, nil, func(b *ssa.BasicBlock, s int) bool { return !(b == inB && s == other) })
+				if !reach {
+					okBoth = false
+				}
+			}
+			r.ob(rule, fn+": the EPOLLOUT bit is examined whether or not EPOLLIN is set in the same event", p.ipos(out), okBoth, true,
+				"edge-triggered: a writable edge swallowed by a simultaneous readable bit is never reported again and the parked writer hangs")
+		}
+	}
+	r.count(rule, "epoll event demultiplexers of the connection handler", n, 1)
+}
+
+// conditionalSignal: the call's callee signals on every path except those on which the handler is already closed
+// (close() releases the waiters itself): accepted form `if isClose == 0 { signal }`.
+func conditionalSignal(p *P, in ssa.Instruction, signals M) bool {
+	g := p.localCallee(in)
+	if g == nil {
+		return false
+	}
+	if _, isCall := in.(*ssa.Call); !isCall {
+		return false
+	}
+	ok, _ := p.findBadPath(g, []Point{{g.Blocks[0], -1}}, pathOpts{
+		Discharge: func(i2 ssa.Instruction) bool { return signals.F(i2) },
+		EdgeOK: func(b *ssa.BasicBlock, i int) bool {
+			ifi := blockIf(b)
+			if ifi == nil {
+				return true
+			}
+			isClosedFlag := func(v ssa.Value) bool {
+				c, okc := v.(*ssa.Call)
+				if !okc {
+					return false
+				}
+				a := p.atomicOp(c)
+				return a != nil && a.Op == "Load" && a.Word == "connEventHandler.isClose"
+			}
+			isZero := func(v ssa.Value) bool { k, okk := constInt(v); return okk && k == 0 }
+			if rel := relOn(ifi.Cond, i == 0, isClosedFlag, isZero); rel == "!=" || rel == ">" {
+				return false // already closed: close() has closed the channel
+			}
+			return true
+		},
+	})
+	return ok
 }
